@@ -175,3 +175,105 @@ class LookupIndexMaps(Contract):
         return And(*[eq(n.LookupListIndex, _sel(a.m, o.LookupListIndex)) for n, o in zip(a._cells, old._cells)])
 
     ensures = [prop("every-stored-index-is-mapped", lambda a, old, r: LookupIndexMaps._post(a, old))]
+
+
+# -- the merged ScriptList: the union of the inputs' (script, language, feature, lookup) associations --
+
+def _assoc_view(script_records):
+    """abstract view of a ScriptRecord list after the indices were turned into objects:
+    {(script tag, language tag or None for the default, feature tag): [lookups in order]}"""
+    view = {}
+    for sr in script_records:
+        s = sr.Script
+        systems = [(None, s.DefaultLangSys)] if s.DefaultLangSys else []
+        systems += [(r.LangSysTag, r.LangSys) for r in s.LangSysRecord]
+        for ltag, ls in systems:
+            key0 = (sr.ScriptTag, ltag)
+            view.setdefault(key0, {})
+            for fr in ls.FeatureIndex:
+                view[key0].setdefault(fr.FeatureTag, []).extend(fr.Feature.LookupListIndex)
+    return view
+
+
+def _shapes(n):
+    """every way n inputs can declare ONE script: per input a DefaultLangSys or none (with or
+    without features), and any subset of two language tags"""
+    import itertools
+    per_input = [(d, langs) for d in (None, "empty", "feat") for langs in ((), ("AAA ",), ("BBB ",), ("AAA ", "BBB "))]
+    return itertools.product(per_input, repeat=n)
+
+
+@contract
+class MergeScriptRecords(Contract):
+    """mergeScriptRecords over 2 and 3 inputs, for EVERY combination of 'has a DefaultLangSys /
+    has none', of language-system tags and of shared / distinct script tags: the merged list
+    offers, per (script, language system, feature tag), exactly the inputs' lookups for that key
+    in input order - no language system (the default one included) is lost or invented - and
+    its records are sorted by tag."""
+    module = "fontTools.merge.layout"
+    qualname = "mergeScriptRecords"
+    props = ("C18",)
+    shadow_mode = "real"
+    variants = ((2, "same-script"), (2, "two-scripts"), (3, "same-script"), (3, "two-scripts"))
+    also = ("mergeScripts", "mergeLangSyses", "mergeFeatureLists", "mergeFeatures")
+    level = "PF"
+
+    def args(self, S, variant):
+        return dict(_n=variant[0], _kind=variant[1])
+
+    @staticmethod
+    def _build(shape, kind):
+        from fontTools.ttLib.tables import otTables as ot
+        counter = [0]
+
+        def langsys(cls, with_features, who):
+            l = cls()
+            l.ReqFeatureIndex = 0xFFFF
+            l.FeatureIndex = []
+            for tag in (("kern", "liga") if with_features else ()):
+                fr = ot.FeatureRecord()
+                fr.FeatureTag = tag
+                fr.Feature = ot.Feature()
+                counter[0] += 1
+                fr.Feature.LookupListIndex = [("lookup", who, counter[0]), ("lookup", who, counter[0], "b")]
+                l.FeatureIndex.append(fr)
+            l.FeatureCount = len(l.FeatureIndex)
+            return l
+        inputs = []
+        for i, (dflt, langs) in enumerate(shape):
+            s = ot.Script()
+            s.DefaultLangSys = langsys(ot.DefaultLangSys, dflt == "feat", i) if dflt else None
+            s.LangSysRecord = []
+            for t in langs:
+                r = ot.LangSysRecord()
+                r.LangSysTag = t
+                r.LangSys = langsys(ot.LangSys, True, i)
+                s.LangSysRecord.append(r)
+            sr = ot.ScriptRecord()
+            sr.ScriptTag = "latn" if (kind == "same-script" or i != 1) else "grek"
+            sr.Script = s
+            inputs.append([sr])
+        return inputs
+
+    def call(self, f, a):
+        bad = []
+        count = 0
+        for shape in _shapes(a._n):
+            inputs = self._build(shape, a._kind)
+            want = {}
+            for one in inputs:
+                for key, feats in _assoc_view(one).items():
+                    slot = want.setdefault(key, {})
+                    for tag, lks in feats.items():
+                        slot.setdefault(tag, []).extend(lks)
+            merged = f(inputs)
+            got = _assoc_view(merged)
+            tags = [r.ScriptTag for r in merged]
+            ltags = [[x.LangSysTag for x in r.Script.LangSysRecord] for r in merged]
+            ok = got == want and tags == sorted(set(tags)) and all(l == sorted(set(l)) for l in ltags)
+            count += 1
+            if not ok:
+                bad.append((shape, want, got))
+        return count, bad
+
+    ensures = [prop("merged-associations-are-the-union-of-the-inputs", lambda a, old, r: r[0] > 0 and not r[1])]
